@@ -31,6 +31,8 @@ func init() {
 			{"C18-R6", "secretCache lock discipline", c18r6},
 			{"C18-R7", "the renewal is scheduled with the computed rotation delay", c18r7},
 			{"C18-R8", "every connected stream is told about every secret event", c18r8},
+			{"C18-R9", "a connection field is not left closed", c18r9},
+			{"C18-R10", "a failed watch is forgotten so that it is retried", c18r10},
 		},
 	})
 }
@@ -384,4 +386,158 @@ func c18r8(c *Ctx) {
 	}
 	c.Check("push loops over the connected clients", fn.Pos(), n == 1, "no loop over sdsservice.clients in push")
 	c.Floor(2)
+}
+
+
+// C18-R9: typestate of a long-lived client's connection field. In the CA clients of the agent, a method that closes the
+// connection held in a field of its receiver (and is not the receiver's own Close) replaces the field on every path
+// before it returns. Otherwise a failure between the close and the replacement leaves the client holding a closed
+// connection for good: every later CSR fails locally and - closing a closed connection being an error itself - the
+// rebuild is never attempted again (a transient failure becomes sticky).
+func c18r9(c *Ctx) {
+	p := c.P
+	n := 0
+	for _, fn := range p.AllFuncs {
+		pp := funcPkgPath(fn)
+		if !strings.HasPrefix(pp, istioMod+"/security/pkg/nodeagent/caclient") || strings.HasSuffix(p.Fset.Position(fn.Pos()).Filename, "_test.go") {
+			continue
+		}
+		if fn.Signature.Recv() == nil || len(fn.Params) == 0 || fn.Parent() != nil {
+			continue
+		}
+		ln := strings.ToLower(fn.Name())
+		if ln == "close" || ln == "stop" || ln == "shutdown" {
+			continue // terminal: the client is not used afterwards
+		}
+		recv := fn.Params[0]
+		eachInstr(fn, func(ins ssa.Instruction) {
+			ci, ok := ins.(ssa.CallInstruction)
+			if !ok {
+				return
+			}
+			if _, isDefer := ins.(*ssa.Defer); isDefer {
+				return
+			}
+			name := ""
+			if ci.Common().IsInvoke() {
+				name = ci.Common().Method.Name()
+			} else if o := calleeObj(ins); o != nil {
+				name = o.Name()
+			}
+			if name != "Close" {
+				return
+			}
+			var target ssa.Value
+			if ci.Common().IsInvoke() {
+				target = ci.Common().Value
+			} else if len(ci.Common().Args) > 0 {
+				target = ci.Common().Args[0]
+			}
+			fv := fieldOfLoad(target)
+			if fv == nil {
+				return
+			}
+			base, _ := fieldLoadOf(target, fv)
+			if base != ssa.Value(recv) {
+				return
+			}
+			n++
+			replaced := func(i ssa.Instruction) bool {
+				st, ok := i.(*ssa.Store)
+				if !ok {
+					return false
+				}
+				fa, ok := st.Addr.(*ssa.FieldAddr)
+				return ok && fa.X == ssa.Value(recv) && fieldVar(fa.X.Type(), fa.Field) == fv
+			}
+			bad := pathAvoiding(fn, ins, replaced, isReturn)
+			pos := ins.Pos()
+			c.Check("connection field closed here is replaced on every path: "+stableFnName(fn)+"."+fv.Name(), pos, bad == nil,
+				"after "+fv.Name()+".Close() the method can return without storing a new connection into the field: the client then holds a closed connection, every later request fails with `the client connection is closing`, and since closing it again fails too, the rebuild is never retried - a transient failure (e.g. the root cert being unreadable while it is rotated) is sticky until the agent restarts")
+		})
+	}
+	c.Check("connection-closing methods of the CA clients found", token.NoPos, n >= 1, "no method closing a connection field found in the caclient providers")
+	c.Floor(2)
+}
+
+// C18-R10: the file-watch registry. A key inserted into fileCerts before the watcher is added is removed again on the
+// failure path of that addition. The lookups "already watching => nothing to do" trust the map: an entry without a watch
+// makes the retry loop (and every later request) stop at once, and the file's changes are never seen.
+func c18r10(c *Ctx) {
+	p := c.P
+	fc := p.Field(pkgNACache, "SecretManagerClient", "fileCerts")
+	n := 0
+	for _, fn := range p.AllFuncs {
+		if funcPkgPath(fn) != istioMod+"/"+pkgNACache || strings.HasSuffix(p.Fset.Position(fn.Pos()).Filename, "_test.go") {
+			continue
+		}
+		eachInstr(fn, func(ins ssa.Instruction) {
+			mu, ok := ins.(*ssa.MapUpdate)
+			if !ok || fieldOfLoad(mu.Map) != fc {
+				return
+			}
+			// watcher additions after the insert whose error is tested
+			isDel := func(i ssa.Instruction) bool {
+				call, ok := i.(*ssa.Call)
+				if !ok {
+					return false
+				}
+				bi, ok := call.Call.Value.(*ssa.Builtin)
+				return ok && bi.Name() == "delete" && fieldOfLoad(call.Call.Args[0]) == fc
+			}
+			eachInstr(fn, func(j ssa.Instruction) {
+				call, ok := j.(*ssa.Call)
+				if !ok {
+					return
+				}
+				name := ""
+				if call.Call.IsInvoke() {
+					name = call.Call.Method.Name()
+				} else if o := calleeObj(j); o != nil {
+					name = o.Name()
+				}
+				if name != "Add" || !types.Identical(call.Type(), types.Universe.Lookup("error").Type()) {
+					return
+				}
+				// reachable after the insert?
+				if pathAvoiding(fn, ins, func(ssa.Instruction) bool { return false }, func(i ssa.Instruction) bool { return i == j }) == nil {
+					return
+				}
+				n++
+				var errEdges []Edge
+				for _, i := range allIfs(fn) {
+					x, eq, ok := nilCmp(i.Cond)
+					if !ok || x != ssa.Value(call) {
+						continue
+					}
+					idx := 0
+					if eq {
+						idx = 1
+					}
+					errEdges = append(errEdges, Edge{i.Block(), idx})
+				}
+				okAll := len(errEdges) > 0
+				var pos token.Pos = j.Pos()
+				for _, e := range errEdges {
+					if bad, found := pathAvoidingE(e.To(), nil, isDel, isReturn, nil, nil); found {
+						okAll = false
+						if bad != nil {
+							pos = bad.Pos()
+						}
+					}
+				}
+				if why, ok := map[string]string{
+					"(*security/pkg/nodeagent/cache.SecretManagerClient).handleSymlinkChange": "not a registration that is retried through the `already watching` gate: the entry describes the symlink, whose own watch persists, and is rewritten on the next symlink event; a failed Add of the new target is logged (read and confirmed; in-place writes to the new target until the next swap are the only loss)",
+				}[stableFnName(fn)]; ok {
+					_ = why
+					c.Check("failed watcher.Add forgets the key it registered (frozen exception): "+stableFnName(fn), pos, true, "")
+					return
+				}
+				c.Check("failed watcher.Add forgets the key it registered: "+stableFnName(fn), pos, okAll,
+					"the file is entered into fileCerts before the watcher is added, and the failure path of the addition returns without deleting the entry: the retry (and every later request) finds `already watching` and stops, so the file is never watched and a rotated file-mounted certificate is never picked up")
+			})
+		})
+	}
+	c.Check("watch registrations found", token.NoPos, n >= 2, "fewer fileCerts insertions followed by a watcher addition than confirmed by hand (file and symlink watchers)")
+	c.Floor(3)
 }
